@@ -402,10 +402,29 @@ WITNESS = {
 }
 
 
+def wide_uid_cases(g):
+    """uids that share a uid-hash bucket (congruent mod GID_HASH) but lie more than 2^31 apart, inserted in every
+    order: a comparison that is not a total order on uint32 (e.g. by subtraction) loses chain entries"""
+    import itertools
+    base = [1000, 1000 + 600000 * GID_HASH, 1000 + 1200000 * GID_HASH, 1000 + 2000000 * GID_HASH, 7 + 1046000 * GID_HASH]
+    out = []
+    for trio in itertools.combinations(base, 3):
+        for perm in itertools.permutations(trio):
+            names = ["wa", "wb", "wc"]
+            pw = list(zip(names, perm))
+            for split in (0, 1):
+                db = [(100, names)] if split == 0 else [(100, names[:1]), (9, names[1:]), (100, names[2:])]
+                out.append("%s G%s P%s M5 R10 A" % (g.head("g", U=list(trio) + [0, SENT - 1], G=[100, 9, 10]), db_str(db), pw_str(pw)))
+    return out
+
+
 def gen_cases(ctx):
     g = Gen(ctx.rng)
     T = ctx.thorough
     cases = []                                            # (binary, line)
+    wide = wide_uid_cases(g)
+    for l in (wide if T else wide[::3]):
+        cases.append(("g", l))
     for l in g.order_cases():
         cases.append(("g", l))
     for key in sorted(WITNESS):
